@@ -1,6 +1,7 @@
 (* C10 — The parser accepts exactly the grammar's language and returns faithful trees.
    Only statements + `exact`; proofs are in Grammar/EarleyFacts.v, EarleyPrune.v, EarleyTop.v,
-   EarleyTrees.v.  Model: Grammar/Earley.v (isla/parser.py EarleyParser + Parser.parse_on +
+   EarleyTrees.v and (proof extension: completeness) EarleyComplete.v, EarleyForest.v, EarleyFuel.v,
+   EarleyWrap.v.  Model: Grammar/Earley.v (isla/parser.py EarleyParser + Parser.parse_on +
    prune_tree/coalesce; solver.py ISLaSolver.parse).
 
    fxA / fxB select the pinned (false) or repaired (true) form of chart_parse's seeding and of
@@ -12,15 +13,24 @@
        (exists ts, ts <> [] /\ parse g start w = Ok ts)  <->  L g start w
        /\ (parse g start w = Raise SyntaxErr <-> ~ L g start w)
        /\ forall t in parse g start w: wf_tree g t /\ closed t /\ lbl t = start /\ yield t = w.
-   Proved below: the "only if" half of the first line and the whole third line (soundness:
-   C10_item_sound, C10_accept_sound, C10_parse_sound_partial), for the pinned code under the two
-   guards that its recorded defects require (C10_*_refuted).  NOT proved: completeness of the
-   chart (reject_sound: `Raise SyntaxErr -> ~ L g start w`, and that every finished item has a
-   parse path = hypothesis forest_totalb of C10_parse_sound_partial).  Those two claims are tied
-   to the code only by the correspondence run (all strings up to the length bound, membership
-   decided by an independent recogniser and by the proved-sound oracle Lb; forest_totalb is
-   evaluated in Coq on every chart of the run). *)
-From ISLA Require Import Grammar GrammarFacts Earley EarleyFacts EarleyPrune EarleyTop EarleyTrees.
+   PROVED IN FULL (for every canonical grammar, cyclic or not, every string, every fuel):
+     * line 3 (C10_parse_sound; no forest hypothesis any more, no restriction on the constructor's
+       start symbol) and the "only if" half of line 1 (C10_accept_sound, C10_parse_sound);
+     * line 2: C10_reject_sound (SyntaxErr -> non-member: chart COMPLETENESS, pinned and repaired
+       form alike, no guard), and with the explicit fuel bound `fuel_bound` (C10_chart_enough_fuel)
+       the equivalence C10_syntaxerr_iff and the decision statement C10_accepts_iff;
+     * forest_totalb is a theorem (C10_forest_total).
+   Pinned code: the soundness statements carry the two guards that its recorded defects require
+   (C10_*_refuted); the completeness statements need no guard.
+   STILL PARTIAL: the "if" half of line 1, C10_parse_member_outcomes_partial: for a member of the
+   language parse answers a NON-EMPTY list of trees or the model's out-of-fuel outcome of the TREE
+   ENUMERATION (`trees`); that the enumeration terminates within a computable fuel for grammars
+   without cyclic unit/nullable derivations is not proved (the correspondence run would show an
+   out-of-fuel answer as a disagreement).  The extra hypothesis `defined g cstart = true` of the
+   completeness theorems (the parser object was built for a nonterminal of the grammar) is not
+   needed by the code; it keeps the unreachable rule `<> ::= cstart` well-formed. *)
+From ISLA Require Import Grammar GrammarFacts Earley EarleyFacts EarleyPrune EarleyTop EarleyTrees
+  EarleyComplete EarleyForest EarleyFuel EarleyWrap.
 
 (* (1) chart invariant: every item (A -> alpha . beta, origin s) of column j of the finished chart
    satisfies: A -> alpha beta is a rule, alpha =>* w[s..j) *)
@@ -51,7 +61,8 @@ Theorem C10_accept_sound : forall g cstart fxA fxB fuel start w,
 Proof. intros g cstart fxA fxB fuel start w Hg Hnd Hw. exact (accept_sound g cstart Hg Hnd Hw fxA fxB fuel start w). Qed.
 Print Assumptions C10_accept_sound.
 
-(* (2b) every returned tree is a valid, closed derivation tree of g, rooted in the requested
+(* (2b) [superseded by C10_parse_sound below, kept for reference] every returned tree is a valid,
+   closed derivation tree of g, rooted in the requested
    nonterminal, spelling exactly the input (and the input is in the language).
    PARTIAL: under forest_totalb (every finished item of the chart has a parse path; evaluated in Coq
    on every chart of the correspondence run) and for parsers built without the "<>" rule. *)
@@ -66,6 +77,97 @@ Theorem C10_parse_sound_partial : forall fxA fxB fuel g cstart start w k ts t,
   wf_tree g t /\ is_openT t = false /\ lbl t = start /\ yield t = w /\ L g start w.
 Proof. exact parse_sound. Qed.
 Print Assumptions C10_parse_sound_partial.
+
+(* (2b') the same WITHOUT the forest hypothesis and WITHOUT the restriction on the constructor's
+   start symbol (the rule "<>" ::= cstart may be present): FULL *)
+Theorem C10_parse_sound : forall fxA fxB fuel g cstart start w k ts t,
+  good_grammar g -> NoDup (map fst g) -> defined g WRAP = false ->
+  defined g start = true -> defined g cstart = true ->
+  (fxA = true \/ K_multistart g start = false) ->
+  (fxB = true \/ K_recstart g cstart start = false) ->
+  earley_parse fxA fxB fuel g cstart start w k = Ok ts -> In t ts ->
+  wf_tree g t /\ is_openT t = false /\ lbl t = start /\ yield t = w /\ L g start w.
+Proof. exact parse_sound_full. Qed.
+Print Assumptions C10_parse_sound.
+
+(* every finished item of a delivered chart has a parse path: the former hypothesis is a theorem *)
+Theorem C10_forest_total : forall g cstart fxA fuel start w chart,
+  good_grammar g -> NoDup (map fst g) -> defined g WRAP = false -> defined g start = true ->
+  defined g cstart = true -> (fxA = true \/ K_multistart g start = false) ->
+  chart_of fxA fuel (cgram g cstart) start w = Ok chart ->
+  forest_totalb (cgram g cstart) w chart = true.
+Proof. exact forest_total_holds. Qed.
+Print Assumptions C10_forest_total.
+
+(* ---- COMPLETENESS of the chart ---- *)
+
+(* nullable() contains every symbol that derives the empty string (converse of C10_nullable_sound) *)
+Theorem C10_nullable_complete : forall cg A, derives cg [A] [] -> mem A (nullable cg) = true.
+Proof. exact nullable_complete. Qed.
+Print Assumptions C10_nullable_complete.
+
+(* (3a) reject_sound: SyntaxError is answered only for non-members.  FULL: every canonical grammar
+   (cyclic / ambiguous or not), both forms of both defect spots, every fuel (an out-of-fuel run
+   answers OtherErr, not SyntaxErr) *)
+Theorem C10_reject_sound : forall g cstart fxA fxB fuel start w k,
+  good_grammar g -> defined g start = true -> defined g cstart = true ->
+  earley_parse fxA fxB fuel g cstart start w k = Raise SyntaxErr -> ~ L g start w.
+Proof. exact reject_sound. Qed.
+Print Assumptions C10_reject_sound.
+
+(* (3b) the recogniser never answers `false` for a member *)
+Theorem C10_accepts_complete : forall g cstart fxA fxB fuel start w b,
+  good_grammar g -> defined g WRAP = false -> defined g start = true -> defined g cstart = true ->
+  L g start w -> earley_accepts fxA fxB fuel g cstart start w = Ok b -> b = true.
+Proof. exact accepts_complete. Qed.
+Print Assumptions C10_accepts_complete.
+
+(* (3c) fill_enough_fuel: above the computable bound
+   fuel_bound cg n = (sum over the rules A -> e of cg of |e|+1) * (n+1) + 1
+   the chart construction never runs out of fuel *)
+Theorem C10_chart_enough_fuel : forall g cstart fxA fuel start w,
+  good_grammar g -> defined g WRAP = false -> defined g start = true ->
+  (fxA = true \/ K_multistart g start = false) ->
+  fuel_bound (cgram g cstart) (length w) <= fuel ->
+  exists chart, chart_of fxA fuel (cgram g cstart) start w = Ok chart.
+Proof. exact chart_enough_fuel. Qed.
+Print Assumptions C10_chart_enough_fuel.
+
+(* (3d) the recogniser decides membership *)
+Theorem C10_accepts_iff : forall g cstart fxA fxB fuel start w,
+  good_grammar g -> NoDup (map fst g) -> defined g WRAP = false ->
+  defined g start = true -> defined g cstart = true ->
+  (fxA = true \/ K_multistart g start = false) ->
+  (fxB = true \/ K_recstart g cstart start = false) ->
+  fuel_bound (cgram g cstart) (length w) <= fuel ->
+  exists b, earley_accepts fxA fxB fuel g cstart start w = Ok b /\ (b = true <-> L g start w).
+Proof. exact accepts_iff. Qed.
+Print Assumptions C10_accepts_iff.
+
+(* (3e) line 2 of the property *)
+Theorem C10_syntaxerr_iff : forall g cstart fxA fxB fuel start w k,
+  good_grammar g -> NoDup (map fst g) -> defined g WRAP = false ->
+  defined g start = true -> defined g cstart = true ->
+  (fxA = true \/ K_multistart g start = false) ->
+  (fxB = true \/ K_recstart g cstart start = false) ->
+  fuel_bound (cgram g cstart) (length w) <= fuel ->
+  (earley_parse fxA fxB fuel g cstart start w k = Raise SyntaxErr <-> ~ L g start w).
+Proof. exact syntaxerr_iff. Qed.
+Print Assumptions C10_syntaxerr_iff.
+
+(* (3f) "if" half of line 1.  PARTIAL: a member gets a non-empty list of trees OR the out-of-fuel
+   outcome of the tree enumeration; missing: termination of `trees` within a computable fuel for
+   grammars without cyclic unit/nullable derivations *)
+Theorem C10_parse_member_outcomes_partial : forall g cstart fxA fxB fuel start w k,
+  good_grammar g -> defined g WRAP = false ->
+  defined g start = true -> defined g cstart = true ->
+  (fxA = true \/ K_multistart g start = false) ->
+  fuel_bound (cgram g cstart) (length w) <= fuel -> 0 < k ->
+  L g start w ->
+  (exists ts, ts <> [] /\ earley_parse fxA fxB fuel g cstart start w k = Ok ts) \/
+  earley_parse fxA fxB fuel g cstart start w k = Raise OutOfFuel.
+Proof. exact parse_member_outcomes. Qed.
+Print Assumptions C10_parse_member_outcomes_partial.
 
 (* the boolean class of canonical grammars gives the Prop-level hypotheses *)
 Theorem C10_canonical_form : forall g, canonical_form g = true -> good_grammar g /\ defined g WRAP = false.
@@ -124,3 +226,21 @@ Example C10_hypotheses_satisfiable :
             /\ wf_treeb G_ex t = true /\ yield t = [97;98;97;98]%N.
 Proof. exact hypotheses_satisfiable. Qed.
 Print Assumptions C10_hypotheses_satisfiable.
+
+(* non-vacuity of the hypotheses of the completeness theorems: a member parsed, a non-member
+   answered SyntaxError, fuel above the bound; and a parser whose start symbol has two
+   alternatives ("<>" rule present, repaired form) *)
+Example C10_complete_hypotheses_satisfiable :
+  canonical_form G_ex = true /\ NoDup (map fst G_ex) /\ defined G_ex START = true /\
+  K_multistart G_ex START = false /\ K_recstart G_ex START START = false /\
+  fuel_bound (cgram G_ex START) 4 <= 100 /\
+  L G_ex START [97;98;97;98]%N /\
+  (exists t, earley_parse false false 100 G_ex START START [97;98;97;98]%N 8 = Ok [t]) /\
+  earley_parse false false 100 G_ex START START [97;98;97]%N 8 = Raise SyntaxErr /\
+  earley_accepts false false 100 G_ex START START [97;98;97]%N = Ok false /\
+  canonical_form G_multi = true /\ K_multistart G_multi START = true /\
+  fuel_bound (cgram G_multi START) 1 <= 100 /\
+  (exists t, earley_parse true true 100 G_multi START START [97]%N 8 = Ok [t] /\ wf_treeb G_multi t = true) /\
+  earley_parse true true 100 G_multi START START [99]%N 8 = Raise SyntaxErr.
+Proof. exact complete_hypotheses_satisfiable. Qed.
+Print Assumptions C10_complete_hypotheses_satisfiable.
